@@ -28,6 +28,9 @@ Definition Own (m : N) (l : list item) : Prop := Forall (fun i => item_mod i = S
 Lemma Own_app m a b : Own m a -> Own m b -> Own m (a ++ b).
 Proof. unfold Own. intros. apply Forall_app. auto. Qed.
 
+(* events user code can buffer: messages on their way *)
+Definition msg_ev (p : N * fev) : Prop := match snd p with EvExit _ _ _ | EvDeliver _ _ => True | _ => False end.
+
 (* ---- what user code of module m can change ---- *)
 Record Fr (m : N) (w w' : world) : Prop := {
   fr_fes : w_fes w' = w_fes w;
@@ -36,15 +39,17 @@ Record Fr (m : N) (w w' : world) : Prop := {
   fr_oth : forall i, i <> m -> w_mod w' i = w_mod w i;
   fr_active : active (w_mod w' m) = active (w_mod w m);
   fr_inc : inc (w_mod w' m) = inc (w_mod w m);
-  fr_nw : nw (w_mod w' m) = nw (w_mod w m) }.
+  fr_nw : nw (w_mod w' m) = nw (w_mod w m);
+  fr_buf : exists l, w_buf w' = w_buf w ++ l /\ Forall msg_ev l }.
 
 Lemma Fr_refl m w : Fr m w w.
-Proof. constructor; reflexivity. Qed.
+Proof. constructor; try reflexivity. exists []. rewrite app_nil_r. split; [reflexivity|constructor]. Qed.
 
 Lemma Fr_trans m w1 w2 w3 : Fr m w1 w2 -> Fr m w2 w3 -> Fr m w1 w3.
 Proof.
-  intros [a1 a2 a3 a4 a5 a6 a7] [b1 b2 b3 b4 b5 b6 b7]. constructor; try congruence.
-  intros i Hi. rewrite b4, a4; auto.
+  intros [a1 a2 a3 a4 a5 a6 a7 (la & a8 & a9)] [b1 b2 b3 b4 b5 b6 b7 (lb & b8 & b9)]. constructor; try congruence.
+  - intros i Hi. rewrite b4, a4; auto.
+  - exists (la ++ lb). rewrite b8, a8, app_assoc. split; [reflexivity|apply Forall_app; auto].
 Qed.
 
 (* a module's callback (not its tasks) moreover leaves its tasks and timers alone *)
@@ -67,17 +72,18 @@ Lemma FrP_set m w x :
   FrP m w (set_mod w m x).
 Proof.
   intros. constructor; [constructor|..]; try reflexivity; rewrite ?mod_same; auto.
-  intros i Hi. apply mod_other, Hi.
+  - intros i Hi. apply mod_other, Hi.
+  - exists []. rewrite app_nil_r. split; [reflexivity|constructor].
 Qed.
 
 Lemma Fr_set m w x :
   active x = active (w_mod w m) -> inc x = inc (w_mod w m) -> nw x = nw (w_mod w m) -> Fr m w (set_mod w m x).
 Proof.
-  intros. constructor; try reflexivity; rewrite ?mod_same; auto. intros i Hi. apply mod_other, Hi.
+  intros. constructor; try reflexivity; rewrite ?mod_same; auto.
+  - intros i Hi. apply mod_other, Hi.
+  - exists []. rewrite app_nil_r. split; [reflexivity|constructor].
 Qed.
 
-Lemma FrP_buf m w b : FrP m w (set_buf w b).
-Proof. constructor; [constructor|..]; reflexivity. Qed.
 
 Lemma FrP_spend m w : FrP m w (spend m w).
 Proof. unfold spend. apply FrP_set; reflexivity. Qed.
@@ -85,13 +91,16 @@ Proof. unfold spend. apply FrP_set; reflexivity. Qed.
 Lemma FrP_request m r w : FrP m w (request m r w).
 Proof. unfold request. apply FrP_set; reflexivity. Qed.
 
-Lemma FrP_buf_push m p w : FrP m w (buf_push p w).
-Proof. apply FrP_buf. Qed.
+Lemma FrP_buf_push m p w : msg_ev p -> FrP m w (buf_push p w).
+Proof.
+  intros Hp. constructor; [constructor|..]; try reflexivity.
+  exists [p]. split; [reflexivity|constructor; [exact Hp|constructor]].
+Qed.
 
 Lemma FrP_buf_send_at k now m far d x w : FrP m w (buf_send_at k now m far d x w).
 Proof.
-  unfold buf_send_at. destruct (d =? 0); [|apply FrP_buf_push].
-  destruct (walk k w m far); [apply FrP_buf_push|apply FrP_refl].
+  unfold buf_send_at. destruct (d =? 0); [|apply FrP_buf_push; exact I].
+  destruct (walk k w m far); [apply FrP_buf_push; exact I|apply FrP_refl].
 Qed.
 
 (* records written by the runtime rather than by user code *)
@@ -124,7 +133,7 @@ Lemma do_act_FrP k now m who a s : FrP m (x_w s) (x_w (do_act k now m who a s)).
 Proof.
   destruct a; cbn [do_act]; try apply FrP_refl; try (destruct (broke m s); [apply FrP_refl|]); wsimpl.
   - eapply FrP_trans; [apply FrP_spend|apply FrP_buf_send_at].
-  - eapply FrP_trans; [apply FrP_spend|apply FrP_buf_push].
+  - eapply FrP_trans; [apply FrP_spend|apply FrP_buf_push; exact I].
   - eapply FrP_trans; [apply FrP_spend|apply FrP_request].
   - eapply FrP_trans; [apply FrP_spend|apply FrP_request].
 Qed.
